@@ -639,6 +639,12 @@ class EnumConverter(Converter):
             values = [value]
 
         length = len(values)
+        if isinstance(value, str):
+            # An exact match wins over a whitespace collapsed one
+            for member in cast(type[Enum], data_type):
+                if member.value == value:
+                    return member
+
         for member in cast(type[Enum], data_type):
             if self.match(value, values, length, member.value, **kwargs):
                 return member
